@@ -225,6 +225,9 @@ def classify_known(case, mis, bundle):
 
 def session_oracle(case):
     spec, ops = case["spec"], case["ops"]
+    dopt = D.display_opts(spec.get("kwargs", {}).get("itstat_options"))
+    if dopt["display"] and dopt["period"] == 0:
+        return None  # every insert raises ZeroDivisionError: the property makes no claim (C15_period_zero characterises it)
     st, ct, clock0 = case["step_ticks"], case["cb_ticks"], case.get("clock0", 0)
     n = D.max_steps(ops)
     twin = D.twin_tables(spec, n)
